@@ -258,7 +258,10 @@ class QuadricTensor(ProjectiveTensor, ABC):
     @property
     def dual(self) -> QuadricTensor:
         """The dual quadric."""
-        return type(self)(inv(self.array), is_dual=not self.is_dual, copy=False)
+        # classes like Circle or Sphere are constructed from geometric parameters and not from a matrix,
+        # their duals are instances of the first base class that is constructed from a matrix
+        cls = next(c for c in type(self).__mro__ if "__init__" not in vars(c))
+        return cls(inv(self.array), is_dual=not self.is_dual, copy=False)
 
 
 class Quadric(QuadricTensor, BoundTensor):
